@@ -56,6 +56,9 @@ def spell(code, W, ns):
         "list['A']": lambda: list["KA"], "('A',B)": lambda: ("KA", B),
         "Ann['A']": lambda: typing.Annotated["KA", 1], "type['A']": lambda: type["KA"], "type[Ann[A]]": lambda: type[typing.Annotated[A, 1]],
         "Opt[Ann[A]]": lambda: typing.Optional[typing.Annotated[A, "m"]],
+        "list[A]|B": lambda: list[A] | B, "tU[list[A],B]": lambda: typing.Union[list[A], B], "list[A]|None": lambda: list[A] | None,
+        "Opt[list[A]]": lambda: typing.Optional[list[A]], "(list[A],B)": lambda: (list[A], B),
+        "Ex[A]|None": lambda: OT.Exactly[A] | None, "None|Ex[A]": lambda: None | OT.Exactly[A], "Opt[Ex[A]]": lambda: typing.Optional[OT.Exactly[A]],
         "'Text'": lambda: "Text", "'Text|Counter'": lambda: "Text | Counter", "'Opt[List]'": lambda: "typing.Optional[List]",
         "dict[A,B]": lambda: dict[A, B], "Dict[A,B]": lambda: typing.Dict[A, B],
         "type[A]": lambda: type[A], "Type[A]": lambda: typing.Type[A],
@@ -75,12 +78,15 @@ PAIRS = [
     # a string nested inside a typing construct (typing wraps it in a ForwardRef) names the same type as the whole-annotation string
     # a string names what the module's own globals bind it to, also when typing exports the same name
     ("'Text'", "A"), ("'Text|Counter'", "A|B"), ("'Opt[List]'", "Opt[A]"),
+    ("list[A]|B", "tU[list[A],B]"), ("list[A]|None", "Opt[list[A]]"), ("list[A]|B", "(list[A],B)"),
+    ("Ex[A]|None", "Opt[Ex[A]]"), ("None|Ex[A]", "Opt[Ex[A]]"),
     ("Ann['A']", "A"), ("type['A']", "type[A]"), ("type[Ann[A]]", "type[A]"), ("Opt[Ann[A]]", "Opt[A]"),
     ("Opt[A]", "Opt['A']"), ("tU[A,B]", "tU['A',B]"), ("list[A]", "List['A']"), ("list[A]", "list['A']"), ("(A,B)", "('A',B)"),
     ("Lit[0,1]", "Lit[1,0]"), ("Lit[True,1]", "Lit[1,True]"), ("Lit[False,2]", "Lit[2,False]"), ("Lit[0,'a']", "Lit['a',0]"), ("Lit[1,2,3]", "Lit[3,1,2]"),
 ]
 SURROUND = ["none", "obj", "A", "B", "C", "A|C", "B|C", "obj,A", "obj,B|C", "int", "list", "type"]
 _MS = MethodSet([dict(pos=[("x", ("obj",), False)]) for _ in range(3)])
+_MSD = MethodSet([dict(pos=[("x", ("obj",), False)]) for _ in range(4)])
 _MS0 = MethodSet([dict(pos=[("x", ("obj",), False)]) for _ in range(3)])
 
 
@@ -172,6 +178,45 @@ def make_run(W, shape, known_active=None):
         except Exception as e:  # noqa: BLE001
             return Broken(e), []
 
+    def mk_twice(first, second):
+        """one function in which the annotated method is defined twice, under the two spellings: the same signature, so the later definition
+        replaces the earlier one (the earlier one only stays reachable through call_next, which these bodies do not use)"""
+        hs, LOG, ns = _MSD.instantiate(W)
+        ns["KA"], ns["KB"], ns["typing"] = W.K[0], W.K[1], typing
+        ns["Text"], ns["Counter"], ns["List"] = W.K[0], W.K[1], W.K[0]
+        ov = Ovld()
+        for m, code in ((0, first), (1, second)):
+            ann = spell(code, W, ns)
+            hs[m].__annotations__ = {} if ann is MISSING else {"x": ann}
+            ov.register(hs[m], priority=W.prio[0])
+        for j, t in enumerate(surround_types(sur, W)):
+            hs[2 + j].__annotations__ = {"x": t}
+            ov.register(hs[2 + j], priority=W.prio[1 + j])
+        return ov, LOG
+
+    def run_twice(ctx):
+        try:
+            f2, L2 = mk_twice(sa, sb)
+            f2.dispatch  # noqa: B018
+        except Exception as e:  # noqa: BLE001
+            f2, L2 = Broken(e), []
+        f1, L1 = mk_safe(sb)
+        trace, ok = [], True
+        for name, mkarg in probes():
+            a = mkarg()
+            o2 = full_outcome(lambda: f2.dispatch(a), L2)
+            o1 = full_outcome(lambda: f1.dispatch(a), L1)
+            # method numbering: single function 0 = annotated, 1.. = surround; double function 1 = the later definition, 2.. = surround
+            exp = ([m + 1 for m in o1[0]], o1[1])
+            trace.append(dict(arg=name, defined_twice=o2, later_definition_alone=o1))
+            if (o2[0], o2[1][0]) != (exp[0], exp[1][0]):
+                ok = False
+        ran = sum(1 for t in trace if t["defined_twice"][1][0] == "ret")
+        return Verdict(ok, (), dict(first_spelling=sa, second_spelling=sb, surround=sur, trace=trace), [f"ran{min(ran, 5)}"], nontrivial=ran >= 1)
+
+    if shape.get("twice"):
+        return run_twice
+
     def run(ctx):
         fa, LA = mk_safe(sa)
         fb, LB = mk_safe(sb)
@@ -196,6 +241,8 @@ def make_run(W, shape, known_active=None):
 
 def gen_shapes(tier, seed):
     shapes = [dict(n=3, pair=list(p), surround=s) for p in PAIRS for s in SURROUND]
+    # the two spellings in ONE function: a re-definition under an equivalent spelling replaces the earlier one
+    shapes += [dict(n=3, pair=list(p), surround=s, twice=True) for p in PAIRS for s in ("none", "obj", "A|C")]
     return shapes, len(shapes), False
 
 
